@@ -6,7 +6,7 @@
    sequence of allocation failures). *)
 From Coq Require Import NArith List Bool.
 Import ListNotations.
-Require Import UV.C03.Model UV.C03.Inv UV.C03.Proofs UV.C03.Lost.
+Require Import UV.C03.Model UV.C03.Inv UV.C03.Proofs UV.C03.Lost UV.C03.Fits.
 
 (* The invariant (UV.C03.Inv.Inv) holds in every reachable state:  for every thread t
      file t ++ contents of (writer's head ++ writer's bufs ++ t's part of buf_write_list ++
@@ -90,6 +90,20 @@ Theorem C03_lost_tail_unreported_refuted :
             bytes_of (file s 0) = r16 1 ++ r16 2.
 Proof. exact tail_loss_unreported_refuted. Qed.
 Print Assumptions C03_lost_tail_unreported_refuted.
+
+(* No buffer is ever filled beyond its capacity (no write past the shm object, nothing torn), provided
+   a LOST marker plus any single record fits - the real option rounds -b up to a page, records are at
+   most 16+1024 bytes.  reach_small = reachable by steps whose records satisfy 16 + |r| <= maxsize. *)
+Theorem C03_buffers_fit : forall c nw s, reach_small c nw s -> forall b, size s b <= maxsize c.
+Proof. exact buffers_fit. Qed.
+Print Assumptions C03_buffers_fit.
+
+(* ... and the hypothesis is needed: get_new_shmem_buffer puts the record behind the LOST marker without
+   a second size check (UFTRACE_BUFFER = 32, i.e. one record per buffer: 32 bytes in a 16-byte buffer). *)
+Theorem C03_overflow_without_room_refuted :
+  exists s, run {| maxsize := 16 |} (init 1) overflow_trace = Some s /\ size s (0, 0) = 32.
+Proof. exact overflow_refuted. Qed.
+Print Assumptions C03_overflow_without_room_refuted.
 
 (* Non-vacuity: 2 threads, 2 writers, 2 records per buffer, buffer reuse, a refused allocation followed
    by a LOST marker, a direct hand-over to a busy writer, flush of an unfinished thread. *)
